@@ -280,3 +280,111 @@ def c18(cases, res):
     res.notes["oracle_english_keys"] = keys
     res.notes["oracle_fullwidth_images"] = len(images)
     return out
+
+
+# ---------------------------------------------------------------- C03
+
+def parse_sels(s):
+    out = []
+    for part in filter(None, (s or "").split(",")):
+        rng, kind, text = part.split(":")
+        b, e = rng.split("-")
+        out.append((int(b), int(e), kind, tuple(int(x) for x in text.split(".") if x)))
+    return out
+
+
+def c03(cases, res):
+    out = []
+    checked = 0
+    for case in cases:
+        for i, prev, s in steps_with_prev(case):
+            if not s.obs or s.obs.get("display") is None:
+                continue
+            checked += 1
+            syms = lst(s.snap.get("syms", ""))
+            disp = [int(x) for x in s.obs.get("display", "").split(".") if x]
+            if s.obs.get("tiling") != "1":
+                out.append(fail("conversion-not-a-tiling", case, i, "%s / %s" % (s.raw_s[:300], (s.dconv or {}).get("ivs"))))
+                continue
+            if len(disp) != len(syms):
+                out.append(fail("display-length", case, i, "%d symbols, %d characters" % (len(syms), len(disp))))
+                continue
+            for k, sym in enumerate(syms):
+                if sym.startswith("C") and disp[k] != int(sym[1:]):
+                    out.append(fail("char-symbol-changed", case, i, "position %d: %s displayed as %d" % (k, sym, disp[k])))
+                    break
+            if s.dconv is not None:
+                joined = [x for iv in s.dconv["ivs"] for x in iv[3]]
+                if joined != disp:
+                    out.append(fail("display-not-concatenation", case, i, "%s vs %s" % (joined, disp)))
+    res.notes["oracle_conversions_checked"] = checked
+    return out
+
+
+# ---------------------------------------------------------------- C04
+
+def c04(cases, res):
+    out = []
+    checked = honoured = 0
+    for case in cases:
+        for i, prev, s in steps_with_prev(case):
+            sels = parse_sels(s.snap.get("sels", ""))
+            syms = lst(s.snap.get("syms", ""))
+            gaps = lst(s.snap.get("gaps", ""))
+            # every recorded choice covers syllables only, one character per symbol
+            for (b, e, _, t) in sels:
+                if not (b < e <= len(syms)) or len(t) != e - b or any(not x.startswith("S") for x in syms[b:e]):
+                    out.append(fail("selection-malformed", case, i, "%s over %s" % ((b, e, t), syms)))
+            # ... and is displayed at its own range; no interval spans a break
+            if s.obs and s.obs.get("display") is not None and s.obs.get("tiling") == "1":
+                disp = [int(x) for x in s.obs.get("display", "").split(".") if x]
+                for (b, e, _, t) in sels:
+                    honoured += 1
+                    if tuple(disp[b:e]) != t:
+                        out.append(fail("selection-not-displayed", case, i, "%s shown as %s" % ((b, e, t), disp[b:e])))
+                if s.dconv is not None:
+                    for (b, e, _, _) in s.dconv["ivs"]:
+                        for k in range(b + 1, e):
+                            if k < len(gaps) and gaps[k] == "K":
+                                out.append(fail("interval-spans-break", case, i, "interval %d-%d over break at %d" % (b, e, k)))
+            if prev is None or not is_key(s) or state_of(prev) not in ("Entering", "EnteringSyllable") \
+                    or state_of(s) not in ("Entering", "EnteringSyllable"):
+                continue
+            psels = parse_sels(prev.snap.get("sels", ""))
+            psyms = lst(prev.snap.get("syms", ""))
+            pcur = int(prev.snap["cursor"])
+            exp = None
+            if s.res == "Commit":
+                # auto-commit (or full commit): what is left is a trailing part; later choices shift
+                n = None
+                for cand in (len(psyms) - len(syms), len(psyms) + 1 - len(syms)):
+                    if cand >= 0 and (psyms[cand:] == syms or (cand <= len(psyms) and False)):
+                        n = cand
+                        break
+                if n is not None and psyms[n:] == syms and n > 0:
+                    exp = [(b - n, e - n, k, t) for (b, e, k, t) in psels if b >= n]
+            elif len(syms) == len(psyms) + 1 and syms[:pcur] == psyms[:pcur] and syms[pcur + 1:] == psyms[pcur:]:
+                exp = [((b + 1, e + 1, k, t) if b >= pcur else (b, e, k, t)) for (b, e, k, t) in psels
+                       if not (b < pcur < e)]
+            elif len(syms) == len(psyms) - 1 and pcur > 0 and syms == psyms[:pcur - 1] + psyms[pcur:] \
+                    and key_code(s) == KC["Backspace"]:
+                j = pcur - 1
+                exp = [((b, e, k, t) if b <= j else (b - 1, e - 1, k, t)) for (b, e, k, t) in psels if not (b <= j < e)]
+            elif len(syms) == len(psyms) - 1 and syms == psyms[:pcur] + psyms[pcur + 1:] and key_code(s) == KC["Del"]:
+                j = pcur
+                exp = [((b, e, k, t) if b <= j else (b - 1, e - 1, k, t)) for (b, e, k, t) in psels if not (b <= j < e)]
+            elif syms == psyms and key_code(s) != KC["Tab"]:
+                exp = list(psels)
+            elif syms == psyms:
+                # Tab: a break drops only the choices it cuts through
+                cut = [x for x in psels if x not in sels]
+                if any(not (b < pcur < e) for (b, e, _, _) in cut) or any(x not in psels for x in sels):
+                    out.append(fail("tab-dropped-unrelated-choice", case, i, "%s -> %s at %d" % (psels, sels, pcur)))
+                continue
+            if exp is not None:
+                checked += 1
+                if sorted(exp) != sorted(sels):
+                    out.append(fail("choice-not-preserved", case, i, "expected %s got %s" % (sorted(exp), sorted(sels))))
+    res.notes["oracle_edit_steps_checked"] = checked
+    res.notes["oracle_choices_checked_in_display"] = honoured
+    return out
